@@ -17,5 +17,10 @@ def tasks(ctx):
     return filter_tasks([Task(f, f) for f in FUNCS])
 
 
+# components whose representation invariants the lemmas above assume in every reachable state (engine/closure.py adds
+# the preservation obligations of all their functions)
+tasks.invariant_packages = ('controller',)
+
+
 def run(tier, seed):
     return run_property("C22", tasks, "proof", tier, seed, BASE_ASSUME, TRUSTED)
